@@ -512,35 +512,60 @@ def r4_one_error_list(ctx) -> None:
                         if unparse(a.args[0]) != h.name:
                             r.violation("C07.R4", q, short(a, 80), "handler records a different object than the caught error", f"{fi.module.relpath}:{a.lineno}")
     fd = prog.func("sigma.collection.SigmaCollection.from_dicts")
-    fds = [c for c in walk_no_nested(fd.node) if isinstance(c, ast.Call) and call_name(c).endswith(".from_dict")]
-    if not fds:
-        raise AnalysisError(f"{fd.qual}: no per-document load found")
-    # path rule (CFG): from every per-document load, each path to the next document (loop head) or to a return passes
-    # errors.extend(<loaded object>.errors)
-    from ..util import cfg_of
-    cfg = cfg_of(fd)
-    heads = [n.id for n in cfg.nodes if n.kind == "for"] if isinstance(cfg.nodes, list) else [n.id for n in cfg.nodes.values() if n.kind == "for"]
-    rets = [nid for x in walk_no_nested(fd.node) if isinstance(x, ast.Return) for nid in cfg.nodes_of(x)]
-    for c in fds:
-        cloc = f"{fd.module.relpath}:{c.lineno}"
-        if not (any(unparse(a) == "collect_errors" for a in c.args) or any(kw.arg == "collect_errors" and unparse(kw.value) == "collect_errors" for kw in c.keywords)):
-            r.violation("C07.R4", fd.qual, short(c, 100), "the caller's collect_errors flag is not handed to this per-document load: in collecting mode the collection raises instead of recording the error", cloc)
-            continue
-        st = prog.enclosing_stmt(c)
-        tgt = None
-        if isinstance(st, ast.Assign) and len(st.targets) == 1 and isinstance(st.targets[0], ast.Name):
-            tgt = st.targets[0].id
-        elif isinstance(st, ast.AnnAssign) and isinstance(st.target, ast.Name):
-            tgt = st.target.id
-        if tgt is None:
-            r.violation("C07.R4", fd.qual, short(st, 100), "the loaded object is not bound to a name: its errors cannot be propagated", cloc)
-            continue
-        ext_nodes = [nid for x in walk_no_nested(fd.node) if isinstance(x, ast.Call) and call_name(x) == "errors.extend" and x.args and unparse(x.args[0]) == f"{tgt}.errors"
-                     for nid in cfg.node_of_expr(x, prog.parent)]
-        starts = [s_ for nid in cfg.nodes_of(st) for s_ in cfg.nodes[nid].succ]
-        escaped = cfg.reachable(starts, blocked=ext_nodes) & set(heads + rets)
-        if not escaped and ext_nodes:
-            r.ok("C07.R4", fd.qual, f"{short(c, 60)}: collect_errors passed on; every path to the next document passes errors.extend({tgt}.errors)", cloc)
+    # from_dicts interpreted (sa.tabulate, ClassProxy) on a stream with every kind of document and action; the per-document
+    # loaders are recorders whose objects carry one error each: the collection must receive every one of them, in document
+    # order, together with its own errors, and hand the caller's collect_errors flag to every loader
+    from ..tabulate import ClassProxy as _CPf, call_method as _cmf, Raised as _Rf
+    SCq = "sigma.collection.SigmaCollection"
+    loads: list = []
+    def _loader(kind):
+        class _K:
+            @classmethod
+            def from_dict(cls, doc, *a, **k):
+                args = dict(zip(("collect_errors", "source"), a)); args.update(k)
+                n_ = len(loads) + 1
+                loads.append((kind, args.get("collect_errors", "<not given>"), dict(doc) if isinstance(doc, dict) else doc))
+                o_ = cls()
+                o_.errors, o_.source, o_.n = [f"error of load {n_} ({kind})"], None, n_
+                return o_
+        _K.__name__ = kind
+        return _K
+    SigmaRule, SigmaCorrelationRule, SigmaFilter = _loader("SigmaRule"), _loader("SigmaCorrelationRule"), _loader("SigmaFilter")
+    class SigmaCollectionError(Exception):
+        def __init__(self, *a, **k): super().__init__(*a)
+    def deep_dict_update(dest, src):
+        d_ = dict(dest); d_.update(src); return d_
+    envf = {"SigmaRule": SigmaRule, "SigmaCorrelationRule": SigmaCorrelationRule, "SigmaFilter": SigmaFilter, "SigmaCollectionError": SigmaCollectionError, "deep_dict_update": deep_dict_update}
+    IKf = {"max_steps": 20000, "behaviours": (SigmaCollectionError, AttributeError, TypeError, KeyError)}
+    built_f: dict = {}
+    klass_f = _CPf(prog, SCq, envf, ctor=lambda *a_, **k_: (built_f.update(k_), "COLLECTION")[1], interp_kwargs=IKf)
+    pre = SigmaRule()
+    pre.errors, pre.source = [], None
+    docs_f = [{"title": "r1"}, {"correlation": {}}, {"filter": {}}, {"action": "global", "level": "high"}, {"title": "r2"}, {"action": "repeat", "title": "r3"}, {"action": "reset"},
+              {"title": "r4"}, 5, {"action": "nonsense"}, pre, {"title": "r5"}]
+    try:
+        _cmf(prog, SCq, "from_dicts", klass_f, envf, [dict(d_) if isinstance(d_, dict) else d_ for d_ in docs_f], True, None, interp_kwargs=IKf)
+        raised_f = None
+    except _Rf as ex:
+        raised_f = str(ex)
+    errs_f = [e_ if isinstance(e_, str) else type(e_).__name__ for e_ in built_f.get("errors", [])]
+    want_errs = ["error of load 1 (SigmaRule)", "error of load 2 (SigmaCorrelationRule)", "error of load 3 (SigmaFilter)", "error of load 4 (SigmaRule)", "error of load 5 (SigmaRule)",
+                 "error of load 6 (SigmaRule)", "SigmaCollectionError", "SigmaCollectionError", "error of load 7 (SigmaRule)"]
+    if raised_f is not None:
+        r.violation("C07.R4", fd.qual, "from_dicts on a stream of twelve documents in collecting mode", f"raises {raised_f}", fd.loc)
+    else:
+        bad_flag = [f"load {i_ + 1} ({k_})" for i_, (k_, flag_, _d) in enumerate(loads) if flag_ is not True]
+        if bad_flag:
+            r.violation("C07.R4", fd.qual, f"{bad_flag[0]}: from_dict(..., collect_errors, ...)", "the caller's collect_errors flag is not handed to this per-document load: in collecting mode the collection raises instead of recording the error", fd.loc)
         else:
-            r.violation("C07.R4", fd.qual, "errors.extend(parsed_rule.errors)", f"the errors of the object loaded by {short(c, 60)} are not propagated on every path to the next document", cloc)
+            r.ok("C07.R4", fd.qual, f"collect_errors passed on to all {len(loads)} per-document loads (interpreted)", fd.loc)
+        if errs_f == want_errs:
+            r.ok("C07.R4", fd.qual, "the errors of every loaded object and the collection's own errors reach the collection, in document order (interpreted: rules, correlation, filter, global/repeat/reset, a scalar document, an unknown action, an already parsed rule)", fd.loc)
+        else:
+            r.violation("C07.R4", fd.qual, "errors.extend(parsed_rule.errors)", f"the errors of a loaded object are not propagated on every path to the next document: the collection receives {errs_f} instead of {want_errs}", fd.loc)
+        kinds_f = [k_ for k_, _f, _d in loads]
+        if kinds_f == ["SigmaRule", "SigmaCorrelationRule", "SigmaFilter", "SigmaRule", "SigmaRule", "SigmaRule", "SigmaRule"] and len(built_f.get("init_rules", [])) == 8:
+            r.ok("C07.R4", fd.qual, "every document is loaded once by the loader of its kind; the parsed rule is taken over as it is", fd.loc)
+        else:
+            r.violation("C07.R4", fd.qual, f"loads {kinds_f}, {len(built_f.get('init_rules', []))} objects in the collection", "documents are not loaded once each by the loader of their kind", fd.loc)
     r.floor("C07.R4", 7)
